@@ -71,7 +71,7 @@ pub fn run(cfg: &RunCfg, journal: Arc<Journal>, phases: Vec<Phase>) -> RunResult
     spawn_watchdog(journal.clone(), cfg.threads, stop.clone());
     let mut reports = Vec::new();
     let mut exhaustive = true;
-    for ph in phases {
+    for (phase_index, ph) in phases.into_iter().enumerate() {
         let over = start.elapsed() > cfg.wall_cap;
         let found: u64 = checkers.iter().map(|c| c.nviol).sum();
         if over || found >= 8 {
@@ -105,6 +105,7 @@ pub fn run(cfg: &RunCfg, journal: Arc<Journal>, phases: Vec<Phase>) -> RunResult
                     if i >= tasks.len() {
                         break;
                     }
+                    ck.task_id = (phase_index as u32, i as u32);
                     (tasks[i])(ck);
                     done.fetch_add(1, Ordering::Relaxed);
                 });
